@@ -13,6 +13,12 @@ PROPS = {
     },
 }
 
+PROPS["C07"] = {
+    "level_text": "Proof by contract of the real link-layer decision function (process_header) against the standard's decision table for every control byte, address class, role, feature setting and FCB state; reply frame bytes; transport/session address filters as far as they are synchronous.",
+    "level_note": "Session-level 'transmits nothing in reply to a malformed broadcast' lives in async fns and is not covered; fragment parser behind a contract stub in pop_request.",
+    "not_covered": ["outstation::session::handle_one_request_from_idle error arm (async): replies to malformed broadcast"],
+}
+
 NA = {
     "C02": "whole-system history over real TCP and three threads: no function contract within reach expresses it (Kani has no threads, tokio I/O crashes the Kani compiler); its ingredients are decided under C03/C06/C08/C09/C10/C13",
     "C14": "every rule is control flow inside async fns that hold the physical layer (check_unsolicited, perform_unsolicited_response_series, wait_for_unsolicited_confirm, handle_deferred_read): outside both verifiers",
